@@ -126,6 +126,18 @@ class Scenario:
         return out
 
 
+# what the consumer throws into a suspended query: its own exception class, EVERY exception class the
+# package itself defines (the engine must not mistake them for its own signals), KeyboardInterrupt, KeyError
+THROWN = ('throw', 'throw-engine-exception', 'throw-compiler-error', 'throw-keyboard-interrupt', 'throw-key-error')
+
+
+def thrown_instance(mode):
+    from yldprolog import errors
+    return {'throw': lambda: ConsumerError('thrown by the consumer'), 'throw-engine-exception': lambda: impl.engine.YPException('thrown by the consumer'),
+            'throw-compiler-error': lambda: errors.PrologSyntaxError('consumer', 1, 0, 'thrown by the consumer'), 'throw-keyboard-interrupt': KeyboardInterrupt,
+            'throw-key-error': lambda: KeyError('thrown by the consumer')}[mode]()
+
+
 def run_endings(sc, acc, index):
     """all endings of one scenario"""
     try:
@@ -137,7 +149,7 @@ def run_endings(sc, acc, index):
     if sc.anon:
         exp = [anon_last(o) for o in exp]
     n = len(exp)
-    endings = [('exhaust', None)] + [(m, k) for k in range(n + 1) for m in ('close', 'drop', 'throw')]
+    endings = [('exhaust', None)] + [(m, k) for k in range(n + 1) for m in ('close', 'drop') + tuple(THROWN)]
     yp = None
     for mode, k in endings:
         acc.n['evaluations'] += 1
@@ -192,17 +204,17 @@ def one_ending(sc, yp, args, obs, exp, mode, k):
                 seen.append(impl.observe(obs))
             if mode == 'close':
                 q.close()
-            elif mode == 'throw':
-                sent = ConsumerError('thrown by the consumer')
+            elif mode in THROWN:
+                sent = thrown_instance(mode)
                 try:
                     q.throw(sent)
-                except ConsumerError as e:
+                except StopIteration:
+                    return ('thrown-exception-swallowed', 'the generator swallowed the %s thrown by the consumer after answer %d' % (type(sent).__name__, k))
+                except BaseException as e:  # noqa: BLE001
                     if e is not sent:
                         return ('thrown-exception-replaced', 'the consumer threw %r and got back a different object %r' % (sent, e))
-                except StopIteration:
-                    return ('thrown-exception-swallowed', 'the generator swallowed the exception thrown by the consumer')
                 else:
-                    return ('thrown-exception-swallowed', 'the generator produced another answer instead of propagating the thrown exception')
+                    return ('thrown-exception-swallowed', 'the generator produced another answer instead of propagating the %s thrown by the consumer after answer %d' % (type(sent).__name__, k))
             it = None
     except StopIteration:
         return ('fewer-answers', 'the query stopped after %d answers; reference: %s' % (len(seen), show_answers(exp)))
